@@ -51,7 +51,17 @@ class Ctx:
         self.level = level
         self.rng = random.Random(seed)
         self.t0 = time.time()
-        self.work = VERIF / 'work' / prop
+        # one scratch directory per run (two runs of the same check must not wipe each other's files);
+        # directories left behind by runs that died are removed when they are older than two hours
+        wroot = VERIF / 'work'
+        wroot.mkdir(exist_ok=True)
+        for old in wroot.glob(prop + '-*'):
+            try:
+                if time.time() - old.stat().st_mtime > 7200:
+                    shutil.rmtree(old, ignore_errors=True)
+            except OSError:
+                pass
+        self.work = wroot / ('%s-%d' % (prop, os.getpid()))
         if self.work.exists():
             shutil.rmtree(self.work, ignore_errors=True)
         self.work.mkdir(parents=True, exist_ok=True)
@@ -284,6 +294,8 @@ class Ctx:
         for l in lines:
             print(l, flush=True)
         self.log('done rc=%d' % rc)
+        if not os.environ.get('VERIF_KEEP_WORK'):
+            shutil.rmtree(self.work, ignore_errors=True)
         return rc
 
     def write_evidence(self, rc):
